@@ -29,13 +29,16 @@ class _Rec:
         return "@JSON%d@" % (len(self.objs) - 1)
 
 
+_TIER = {"t": "quick"}
+
+
 def h_formatters(ctx):
     import src.core.cli_utils as cu
     from src.core.types import Violation
     from src.formatters.sarif import SarifFormatter
     import click
 
-    n = ctx.pick("n", (0, 1, 2, 3))
+    n = ctx.pick("n", (0, 1, 2, 3) if _TIER["t"] == "quick" else (0, 1, 2, 3, 4))
     vs, spec = [], []
     for i in range(n):
         rid = ctx.pick(f"rule{i}", RULES)
@@ -148,8 +151,9 @@ def h_exit_codes(ctx):
         foreign_ids = [i for i in universe if not catalogue.owns(cmd, i)]
     k = j = 0
     if mode == "run":
-        k = int(ctx.int("own", 0, 2))
-        j = int(ctx.int("foreign", 0, 2))
+        top = 2 if _TIER["t"] == "quick" else 4
+        k = int(ctx.int("own", 0, top))
+        j = int(ctx.int("foreign", 0, top))
     stub_vs = [Violation(rule_id=own_ids[i % len(own_ids)], file_path="a.py", line=1 + i, column=i,
                          message="own %d" % i) for i in range(k)]
     stub_vs += [Violation(rule_id=foreign_ids[(7 * i + len(cmd)) % len(foreign_ids)], file_path="a.py",
@@ -225,15 +229,16 @@ ASSUMPTIONS = (
 
 
 def obligations(tier):
+    _TIER["t"] = tier
     return [
         Ob(name="K1-formatters", engine="pathex", harness=h_formatters,
            functions=["src.core.cli_utils.format_violations", "_output_json", "_output_sarif", "_output_text",
                       "_print_violation", "_sanitize_string", "SarifFormatter.format/_create_run/_create_tool/"
                       "_create_rules/_create_rule/_create_result/_create_location"],
-           bounds="0..3 violations; line >= 1 and column >= 0 unbounded integers (symbolic to the end); "
+           bounds="0..3 (thorough: 0..4) violations; line >= 1 and column >= 0 unbounded integers (symbolic to the end); "
                   "rule id from 3 ids incl. duplicates; message/path from a concrete table with quotes, "
                   "newline, tab, non-ASCII (forked)",
-           timeout=200, workers=12, must_cover=("n=0", "n=1", "n=3"), witnesses=40,
+           timeout=200, workers=12, must_cover=("n=0", "n=1", "n=3"), witnesses=40 if tier == "quick" else 200,
            stubs=("json.dumps recorder in cli_utils (symbolic runs only)", "click.echo capture"),
            outside="surrogate-escaped bytes / lone surrogates (C codec calls, not symbolic)"),
         Ob(name="K2-exit-codes-every-command", engine="pathex", harness=h_exit_codes,
